@@ -33,6 +33,9 @@ GUARD = "STINGRAY_READER_VERIF"
 if str(SRC) not in sys.path:
     sys.path.insert(0, str(SRC))
 os.environ.setdefault(GUARD, "1")
+import logging  # noqa: E402
+
+logging.getLogger("stingray").setLevel(logging.CRITICAL)   # the library reports absent cells etc. through logger.error
 
 ALLOWED_AXIOMS = {"propext", "Classical.choice", "Quot.sound"}
 FORBIDDEN = re.compile(
